@@ -202,7 +202,8 @@ class Explorer:
                 if self.check() != z3.sat:
                     raise PathAbort()
                 v = self.model().eval(term, model_completion=True).as_long()
-                self.work.append(list(self.trace) + [('pick', excl + [v])])
+                if self.check(term != v) == z3.sat:          # further values remain: continue the enumeration on another path
+                    self.work.append(list(self.trace) + [('pick', excl + [v])])
                 self.trace.append(('val', v, excl))
                 self.pos += 1
                 self.solver.add(term == v)
@@ -216,8 +217,9 @@ class Explorer:
                 raise PathAbort()
             v = self.model().eval(term, model_completion=True).as_long()
             excl = []
-            self.work.append(list(self.trace) + [('pick', [v])])
-            self.symbolic_branches += 1
+            if self.check(term != v) == z3.sat:              # not already pinned to a single value
+                self.work.append(list(self.trace) + [('pick', [v])])
+                self.symbolic_branches += 1
         self.trace.append(('val', v, excl))
         self.pos += 1
         self.solver.add(term == v)
